@@ -806,6 +806,9 @@ def special_case(draw, tier):
             args.append({'v': x, 'room': room, 'obs': len(obs)})
             obs.append(draw(obs_near(x, room, nmax, pool, ens_max=1)))
         spec['args'], spec['obs'] = args, obs
+        # scipy's optional weights: logsumexp(x, b=w) = log(sum w_i exp(x_i)); keepdims returns a one-element array
+        spec['b'] = [draw(gen.fl(0.2, 3.0)) for _ in range(k)] if draw(st.booleans()) else None
+        spec['keepdims'] = draw(st.sampled_from([False, False, True]))
         return spec
     nx = sum(1 for k in kinds if k == 'x')
     forced = draw(st.integers(0, nx - 1))
@@ -869,11 +872,21 @@ def special_oracle(spec):
             raise Skip('argument left the domain')
 
     if name == 'logsumexp':
+        w = spec.get('b')
+        lw = [math.log(t) for t in w] if w else [0.0] * len(vals)
+
         def base(v):
-            return lse(v)
-        L = lse(vals)
-        gterms = [[math.exp(x - L)] for x in vals]
-        call = lambda x: fun(x)  # noqa: E731
+            return lse([x + t for x, t in zip(v, lw)])
+        L = base(vals)
+        gterms = [[math.exp(x + t - L)] for x, t in zip(vals, lw)]
+        kw = {}
+        if w:
+            kw['b'] = np.array(w)
+        if spec.get('keepdims'):
+            kw['keepdims'] = True
+            call = lambda x: fun(x, **kw)[0]  # noqa: E731
+        else:
+            call = lambda x: fun(x, **kw)  # noqa: E731
     else:
         def base(v):
             try:
@@ -913,6 +926,87 @@ def special_oracle(spec):
     return {'nt': fl, 'cls': sorted(labs)}
 
 
+# =============================================================================================
+# interior point x = 0 of the entire functions: the analytic derivative has a finite limit there that formulas written with
+# 1/x do not give; the operand has a central value of exactly 0.0
+
+RSQPI2 = 2.0 / math.sqrt(math.pi)
+ORIGIN = {      # name -> (takes an integer order, f(0), f'(0)) as functions of the order
+    'j0': (False, lambda n: 1.0, lambda n: 0.0), 'j1': (False, lambda n: 0.0, lambda n: 0.5),
+    'i0': (False, lambda n: 1.0, lambda n: 0.0), 'i1': (False, lambda n: 0.0, lambda n: 0.5),
+    'erf': (False, lambda n: 0.0, lambda n: RSQPI2), 'erfc': (False, lambda n: 1.0, lambda n: -RSQPI2),
+    'expit': (False, lambda n: 0.5, lambda n: 0.25), 'erfinv': (False, lambda n: 0.0, lambda n: 1.0 / RSQPI2),
+    'jn': (True, lambda n: 1.0 if n == 0 else 0.0, lambda n: 0.5 if n == 1 else (-0.5 if n == -1 else 0.0)),
+    'iv': (True, lambda n: 1.0 if n == 0 else 0.0, lambda n: 0.5 if abs(n) == 1 else 0.0),
+}
+
+
+@st.composite
+def origin_case(draw, tier):
+    name = draw(st.sampled_from(sorted(ORIGIN)))
+    src = draw(st.sampled_from(['cov', 'mc', 'mc', 'both']))
+    spec = {'fn': name, 'n': draw(st.integers(-3, 5)) if ORIGIN[name][0] else None, 'src': src,
+            'wrap': draw(st.sampled_from(['plain', 'plain', 'scaled', 'shifted'])), 'c': draw(st.one_of(gen.fl(0.1, 3.0), gen.fl(-3.0, -0.1)))}
+    if src in ('mc', 'both'):
+        k = draw(st.integers(3, 20))
+        amp = [draw(gen.fl(0.001, 0.5)) for _ in range(k)]
+        spec['amp'] = amp
+        spec['name'] = draw(st.sampled_from(['A|r1', 'B', 'ens|r02']))
+        spec['idl'] = draw(st.sampled_from(['range', 'strided', 'irregular']))
+    if src in ('cov', 'both'):
+        spec['var'] = draw(gen.fl(0.01, 1.0))
+    return spec
+
+
+def origin_oracle(spec):
+    import pyerrors as pe
+    name = spec['fn']
+    has_n, f0, d0 = ORIGIN[name]
+    n = spec['n']
+    fun = getattr(pe.special, name)
+    o = None
+    if spec['src'] in ('mc', 'both'):
+        x = []
+        for a in spec['amp']:
+            x += [a, -a]                   # adjacent +/- pairs: the mean is exactly 0.0 in floating point
+        N = len(x)
+        idl = {'range': range(1, N + 1), 'strided': range(3, 3 + 4 * N, 4), 'irregular': [1 + i + (i * i) // 3 for i in range(N)]}[spec['idl']]
+        o = pe.Obs([np.array(x)], [spec['name']], idl=[idl])
+    if spec['src'] in ('cov', 'both'):
+        cpart = pe.cov_Obs(0.0, spec['var'], 'c0')
+        o = cpart if o is None else o + cpart
+    if float(o.value) != 0.0:
+        raise Skip('operand mean is not exactly zero')
+    c = spec['c']
+    if has_n:
+        call = lambda t: fun(n, t)  # noqa: E731
+    else:
+        call = lambda t: fun(t)  # noqa: E731
+    if spec['wrap'] == 'scaled':
+        res = pe.derived_observable(lambda v, **kw: c * call(v[0]), [o])
+        fv, dv = c * f0(n), c * d0(n)
+    elif spec['wrap'] == 'shifted':
+        # the function of (x - c) at an operand with central value c: the same interior point, reached through arithmetic
+        oc = o + c
+        res = pe.derived_observable(lambda v, **kw: call(v[0] - c), [oc])
+        if float(oc.value) - c != 0.0:
+            raise Skip('shifted operand does not return to zero exactly')
+        o = oc
+        fv, dv = f0(n), d0(n)
+    else:
+        res = pe.derived_observable(lambda v, **kw: call(v[0]), [o])
+        fv, dv = f0(n), d0(n)
+    what = '%s(%sObs with central value exactly 0) [%s]' % (name, ('%d, ' % n) if has_n else '', spec['wrap'])
+    require(isinstance(res, pe.Obs), what + ': result is not an Obs', type(res).__name__)
+    rf = combine(lambda v: fv, [dv], [RefObs.from_pe(o)], value=fv)
+    # floor: a vanishing derivative is compared on the scale of the operand's own fluctuations
+    ro = RefObs.from_pe(o)
+    rf.mag = {k: max(rf.mag.get(k, 0.0), ro.mag.get(k, 0.0)) for k in ro.mag}
+    rf.cgmag = {k: max(rf.cgmag.get(k, 0.0), ro.cgmag.get(k, 0.0)) for k in ro.cgmag}
+    cmp_obs(rf, res, what, rtol=1e-10, vtol=1e-12, atol_scale=1e-12, check_rv=False)
+    return {'nt': True, 'cls': ['fn:' + name + (':n=%d' % n if has_n else ''), 'src:' + spec['src'], 'wrap:' + spec['wrap']]}
+
+
 SUBS = [
     Sub('dirac', None, dirac_oracle, {'quick': 0, 'thorough': 0}, {'quick': 1, 'thorough': 1}, kind='enum',
         enum=make_enum(dirac_cases, dirac_oracle), doc='Clifford algebra, hermiticity, gamma5 (complete)'),
@@ -928,4 +1022,7 @@ SUBS = [
         doc='K_n on observables: exact derivative -(K_{n-1}+K_{n+1})/2', max_skip_frac=0.05),
     Sub('special', special_case, special_oracle, {'quick': 500, 'thorough': 20000}, {'quick': 8, 'thorough': 16},
         doc='re-exported special functions: analytic derivatives', max_skip_frac=0.05),
+    Sub('origin', origin_case, origin_oracle, {'quick': 300, 'thorough': 5000}, {'quick': 1, 'thorough': 4},
+        doc='entire functions (j0, j1, i0, i1, jn, iv of integer order, erf, erfc, expit, erfinv) at an operand whose central value '
+            'is exactly 0.0: value f(0) and derivative f\'(0)', max_skip_frac=0.3),
 ]
